@@ -52,7 +52,7 @@ def projectOracles (p : Project) (cfg : Gn.Config) (a : Analysis) (implFiles : J
       let fns := ((exportedNames ts).filter fun e => e.1 = cl!"function").map (·.2)
       let lits := callLiterals cl!"invoke" ts
       [("c03_wrappers", sameMulti fns (specCmds.map fun c => N.computeFunctionName c.2.name) &&
-                         sameMulti lits (specCmds.map fun c => c.2.name))]
+                         sameMulti lits (specCmds.map fun c => c.2.name) && functionHeadsOk ts && fns.all T.isTsIdentName)]
   -- C12: one listener per distinct event name
   let specEv := specEventNames p
   let writtenList : List String := match generated.getObjVal? "ok" with | .ok v => (asStrList v).toOption.getD [] | .error _ => []
@@ -63,7 +63,7 @@ def projectOracles (p : Project) (cfg : Gn.Config) (a : Analysis) (implFiles : J
     | some ts =>
       let fns := ((exportedNames ts).filter fun e => e.1 = cl!"function").map (·.2)
       let lits := callLiterals cl!"listen" ts
-      [("c12_listeners", !specEv.isEmpty && nodupS fns && sameMulti lits specEv && fns.all T.isTsIdentName)]
+      [("c12_listeners", !specEv.isEmpty && nodupS fns && sameMulti lits specEv && fns.all T.isTsIdentName && functionHeadsOk ts && !hasBad ts)]
   -- C07: declared = reachable ∩ serde-defined
   let expected := specReachable p
   let c07 : List (String × Bool) :=
@@ -190,7 +190,13 @@ def projectOracles (p : Project) (cfg : Gn.Config) (a : Analysis) (implFiles : J
     (if !nodupS (tyNames ++ genNames) then ["K02e_nameClash"] else []) ++
     (if !nodupS ((selected.flatMap fun f => fileDefs f.items)) then ["duplicateTypeNames"] else []) ++
     (if fnNames.any (fun n => !T.isTsIdentName n) then ["K01a_reservedOrIllegalFnName"] else []) ++
-    (if cfg.mappings.any (fun m => a.structs.any fun st => st.name = m.1) then ["K18a_mappedAndDefined"] else [])
+    (if cfg.mappings.any (fun m => a.structs.any fun st => st.name = m.1) then ["K18a_mappedAndDefined"] else []) ++
+    (if (known.flatMap T.hSpecFull).any (fun n => !(serdeByToken.contains n) && (V.lookup cfg.mappings n).isNone) then ["undefinedNamedType"] else []) ++
+    (if cmdFns.any (fun fn => fn.params.any fun prm => match prm.ty with
+        | .path segs => (match (segList segs), (segList segs).getLast? with
+            | (f, _, _) :: _ :: _, some (id, k, _) => id = cl!"Channel" && k = .angle && f ≠ cl!"tauri"
+            | _, _ => false)
+        | _ => false) then ["K04d_foreignChannelPath"] else [])
   { results := c03 ++ c12 ++ c07 ++ c09 ++ c02 ++ c04, classes := classes }
 where
   imp_commands_empty (a : Analysis) : Bool := a.commands.isEmpty
